@@ -91,7 +91,30 @@ def main():
                         mol.add_Mode(mod)
                         mod.set_nmax(0, agg[m][j][0])
                         mod.set_nmax(1, agg[m][j][1])
-                        mod.set_HR(1, hr[(m, j)])
+                        # the displacement is handed over in the ways the
+                        # Mode accepts: Huang-Rhys factor, dimensionless
+                        # shift, all parameters at once; whole-number
+                        # shifts as the integers a user would type
+                        dsh = math.sqrt(2.0 * hr[(m, j)])
+                        whole = abs(dsh - round(dsh)) < 1e-12
+                        form = (row["inst"] + m + j) % 3
+                        if form == 0 and not whole:
+                            mod.set_HR(1, hr[(m, j)])
+                        elif form == 1 or (form == 0 and whole):
+                            if whole:
+                                mod.set_shift(0, 0)
+                                mod.set_shift(1, int(round(dsh)))
+                            else:
+                                mod.set_shift(1, dsh)
+                        else:
+                            if whole:
+                                mod.set_all(0, [om[(m, j)], 0,
+                                                agg[m][j][0]])
+                                mod.set_all(1, [om[(m, j)], int(round(dsh)),
+                                                agg[m][j][1]])
+                            else:
+                                mod.set_all(1, [om[(m, j)], dsh,
+                                                agg[m][j][1]])
                     mols.append(mol)
                 ag = qr.Aggregate(mols)
                 for k in range(N):
